@@ -7,7 +7,7 @@ use proptest::strategy::Strategy;
 use serde::{Deserialize, Serialize};
 use serde_json::json;
 
-pub const RULE: &str = "case = (game, depth 8-11, hash 1/2/3/16 MB, 0-2 earlier searches). The unstopped search is run once with hook H1 counting the polls of the stop flag -> N. Then for every k = 1..N (all k when N <= 24, else 1, 2, N-1, N and 12 generated indices) the search is repeated from an identically prepared state with the flag made to read true from the k-th poll on. Oracle: no panic; the move returned is in the reference legal set; the total number of polls equals k (any node examined after the stop was observed would poll again); every line reported before the stop passes the C08 oracle; the Game passed in is unchanged; a follow-up search (unstopped, depth 3-5, same state, same or successor position) passes the complete C08 oracle and returns a legal move. A second family calls the real Control::stop() from another thread after a generated delay; a third ends the search by an expired fixed move time of 0-20 ms instead of a stop request. A 'first_iteration' part uses capture-storm positions (4-8 queens a side) at depth 1-2, where the first poll already falls inside the first iteration, with every k. Non-trivial = k strictly inside an iteration (not the between-iterations poll); distinct by (case, k).";
+pub const RULE: &str = "case = (game, depth 8-11, hash 1/2/3/16 MB, 0-2 earlier searches). The unstopped search is run once with hook H1 counting the polls of the stop flag -> N. Then for every k = 1..N (all k when N <= 24, else 1, 2, N-1, N and 12 generated indices (4 when N > 60)) the search is repeated from an identically prepared state with the flag made to read true from the k-th poll on. Oracle: no panic; the move returned is in the reference legal set; the total number of polls equals k (any node examined after the stop was observed would poll again); every line reported before the stop passes the C08 oracle; the Game passed in is unchanged; a follow-up search (unstopped, depth 3-5, same state, same or successor position) passes the complete C08 oracle and returns a legal move. A second family calls the real Control::stop() from another thread after a generated delay; a third ends the search by an expired fixed move time of 0-20 ms instead of a stop request. A 'first_iteration' part uses capture-storm positions (4-8 queens a side) at depth 1-2, where the first poll already falls inside the first iteration, with every k. Non-trivial = k strictly inside an iteration (not the between-iterations poll); distinct by (case, k).";
 
 #[derive(Serialize, Deserialize, Clone, Debug)]
 pub enum Case {
@@ -34,8 +34,8 @@ fn prepare(b: &Built) -> Option<PersistentState> {
 fn from_tape(data: &[u16], tier: Tier) -> Option<(Built, Tape)> {
     let mut t = Tape::new(data);
     let hash_mb = [1usize, 1, 2, 3, 16][t.pick(5)];
-    let (fen, moves, pos, _) = gen_game(&mut t, 1, 8)?;
-    let depth = 8 + t.pick(tier.pick(3, 4)) as u8;
+    let (fen, moves, pos, _) = gen_game_opts(&mut t, 1, 8, false)?; // capture storms have their own part below
+    let depth = 8 + t.pick(tier.pick(2, 4)) as u8;
     let main = SearchSpec { fen: fen.clone(), moves: moves.clone(), limit: Limit::Depth(depth) };
     let mut priors = vec![];
     let np = t.pick(3);
@@ -45,7 +45,7 @@ fn from_tape(data: &[u16], tier: Tier) -> Option<(Built, Tape)> {
             mv.pop();
             (fen.clone(), mv)
         } else {
-            let (f, m, _, _) = gen_game(&mut t, 2, 6)?;
+            let (f, m, _, _) = gen_game_opts(&mut t, 2, 6, false)?;
             (f, m)
         };
         priors.push(SearchSpec { fen: f2, moves: m2, limit: Limit::Depth(2 + t.pick(4) as u8) });
@@ -59,7 +59,13 @@ fn from_tape(data: &[u16], tier: Tier) -> Option<(Built, Tape)> {
             fm.push(m.uci());
         }
     }
-    let followup = SearchSpec { fen, moves: fm, limit: Limit::Depth(3 + t.pick(3) as u8) };
+    let mut followup = SearchSpec { fen, moves: fm, limit: Limit::Depth(3 + t.pick(3) as u8) };
+    let mut main = main;
+    tame(&mut main);
+    tame(&mut followup);
+    for p in priors.iter_mut() {
+        tame(p);
+    }
     Some((Built { hash_mb, priors, main, followup }, t))
 }
 
@@ -117,7 +123,9 @@ fn run_built(b: &Built, ks_explicit: Option<&[u64]>, delays: Option<&[u64]>, mut
             } else {
                 let t = t.as_mut().unwrap();
                 let mut v = vec![1, 2, n - 1, n];
-                for _ in 0..12 {
+                // long searches (many polls) are costly to repeat: fewer extra indices there
+                let extra = if n > 60 { 4 } else { 12 };
+                for _ in 0..extra {
                     v.push(1 + t.pick(n as usize) as u64);
                 }
                 v.sort_unstable();
@@ -210,7 +218,12 @@ pub fn run(run: &mut Run) -> &'static str {
     let strat = tape(24..100).prop_map(Case::Tape);
     run.proptest_part("stops", RULE, strat, cases, move |c: &Case, st: &mut Stats| match c {
         Case::Tape(t) => match from_tape(t, tier) {
-            Some((b, tp)) => run_built(&b, None, None, Some(tp), st),
+            Some((b, tp)) => {
+                if std::env::var("VERIF_DEBUG").is_ok() {
+                    eprintln!("C09 case: hash {} priors {:?} main {:?} followup {:?}", b.hash_mb, b.priors, b.main, b.followup);
+                }
+                run_built(&b, None, None, Some(tp), st)
+            }
             None => {
                 st.discard();
                 Ok(())
